@@ -1487,17 +1487,17 @@ end Coap.Timer
 namespace Coap.Sim
 open Coap Coap.SQ Coap.Msg Coap.Timer
 
-/-- M: number of transmissions (first or repeated) of (s, mid) -/
+/-- M: number of transmissions (first or repeated) of the Confirmable (s, mid) -/
 def txC (s mid : Nat) : List Out → Nat
   | [] => 0
   | o :: r => (match o with
-      | .tx _ s' m' _ _ => if s' = s ∧ m' = mid then 1 else 0
+      | .tx _ s' m' _ true => if s' = s ∧ m' = mid then 1 else 0
       | _ => 0) + txC s mid r
 
 def obsT (s mid : Nat) : List Obs → Nat
   | [] => 0
   | o :: r => (match o with
-      | .tx _ s' m' _ _ => if s' = s ∧ m' = mid then 1 else 0
+      | .tx _ s' m' _ true => if s' = s ∧ m' = mid then 1 else 0
       | _ => 0) + obsT s mid r
 
 theorem txS_obs (s mid : Nat) (outs : List TOut) : txS s mid outs = obsT s mid (outs.filterMap obsS) := by
@@ -1511,6 +1511,7 @@ theorem txC_obs (s mid : Nat) (out : List Out) : txC s mid out = obsT s mid (out
   | cons o r ih =>
     cases o with
     | nack t s' reason m' known => cases reason <;> cases known <;> simp [txC, obsM, obsT, List.filterMap_cons, ih]
+    | tx t s' m' k c => cases c <;> simp [txC, obsM, obsT, List.filterMap_cons, ih]
     | _ => simp [txC, obsM, obsT, List.filterMap_cons, ih]
 
 theorem runIn_append (l : L) (a b : List Ev) : RunIn l (a ++ b) ↔ RunIn l a ∧ RunIn (Msg.run l a) b := by
